@@ -4,7 +4,8 @@ property monitor (no model), shrinking.  Used by props/c12.py; the formatter par
 table, regex substitution) is shared with it.
 
 case (strings are <len> <byte>*len):
-  patd <hoist> <nsinks> sink* <nloggers> logger* <nstmts> statement* <table>
+  patd <h> <nsinks> sink* <nloggers> logger* <nstmts> statement* <table>
+    h         := hoist + 2 * pv_esc + 4 * pv_bits    (the model variant; props/c12.py with_hoist sets it)
     sink      := (0 | 1 <pattern> <add_meta>) <min_level> (0 | 1 <byte> | 2 <byte>)
     logger    := <name> <pattern> <add_meta> <n> <sink index>*n
     statement := <logger index> <level 0..8> <site> <stmt> <rt_file> <rt_line>
@@ -227,7 +228,7 @@ def g_pattern(rng, must_msg=True):
     names = P.g_names(rng, P.E2E_ATTRS, rng.choice([1, 1, 2, 3, 5]))
     if must_msg and 'message' not in names and rng.random() < 0.85: names = names + ['message']
     rng.shuffle(names)
-    items = P.g_items(rng, names) or [('A', 'message', None)]
+    items = P.g_items(rng, names, braces=rng.random() < 0.12) or [('A', 'message', None)]
     return P.pprint(items)
 
 
